@@ -4,7 +4,8 @@ Prints, per check, rc and the violation keys. /repo is restored afterwards (git 
 import subprocess, sys, os, tempfile
 os.environ['VERIF_EVIDENCE_DIR'] = tempfile.mkdtemp(prefix='wpverif-ev-')
 import atexit, shutil
-atexit.register(shutil.rmtree, os.environ['VERIF_EVIDENCE_DIR'], True), re
+atexit.register(shutil.rmtree, os.environ['VERIF_EVIDENCE_DIR'], True)
+import re
 patch = os.path.abspath(sys.argv[1])
 props = sys.argv[2] if len(sys.argv) > 2 else "all"
 props = ["C%02d" % i for i in range(1, 21)] if props == "all" else props.split(",")
